@@ -107,10 +107,13 @@ def run_misc(k):
         fn = lambda: limits.Residue(lambda z: 1.0 / np.expm1(z) ** a * (1 + z), pole_order=a, order=b)(0.0)
     elif kind == 'limit_path':
         path = {1: 'radial', 2: 'spiral', 3: 'diagonal', 4: 'x', 5: 'straight', 6: 'random', 7: 'Radial', 8: 's', 9: 'radial '}[a]
-        if a == 2:      # spiral needs the complex machinery; constructing the generator is the guard point
-            fn = lambda: limits.CStepGenerator(path=path)
+        kw = {0: {}, 1: dict(dtheta=0), 2: dict(dtheta=np.pi / 4, step_ratio=2.0), 3: {}, 4: dict(dtheta=0.0), 5: dict(dtheta=0)}[b]
+        if a == 2 or b == 4:      # spiral needs the complex machinery; constructing the generator is the guard point
+            fn = lambda: limits.CStepGenerator(path=path, **kw)
+        elif b in (3, 5):
+            fn = lambda: limits.Residue(lambda z: 1.0 / np.expm1(z), path=path, **kw)(0.0)
         else:
-            fn = lambda: limits.Limit(lambda z: np.sin(z) / z, path=path)(0.0)
+            fn = lambda: limits.Limit(lambda z: np.sin(z) / z, path=path, **kw)(0.0)
     out, detail = classify(fn)
     return out, (repr(detail)[:80] if out == 'Return' else detail)
 
